@@ -353,3 +353,72 @@ Fixpoint values_of (k : sig_kind) (last : Q) (pts : list (Z * raw)) : list value
 Definition spec_rows (a : string) (p : parser) (items : list item) : list (Q * value) :=
   let pts := good_lines a p items in
   combine (map (fun pt => secs (fst pt)) pts) (values_of (p_kind p) 0 pts).
+
+(** * time.Parse("060102 15:04:05.999999", s) on the fixed-width shape
+
+    The expansion of `(?P<ts_log>)` only captures strings of the shape
+    dddddd dd:dd:dd.dddddd.  On those, time.Parse either fails (a field out
+    of range) or yields this instant, in ns since the Unix epoch (UTC).
+    [detect] takes the date from the harness ([f_date]); this function is the
+    model of that input for the fixed-width shape, compared with time.Parse
+    on every generated stamp of that shape (Corr/C08.v [tslog_model_bad]). *)
+
+Fixpoint digits_n (n : nat) (s : string) (acc : Z) : option (Z * string) :=
+  match n with
+  | O => Some (acc, s)
+  | S n' => match s with
+            | String c tl => match digit_of c with
+                             | Some d => digits_n n' tl (acc * 10 + d)%Z
+                             | None => None
+                             end
+            | EmptyString => None
+            end
+  end.
+
+Definition expect_char (c : ascii) (s : string) : option string :=
+  match s with
+  | String d tl => if Ascii.eqb c d then Some tl else None
+  | EmptyString => None
+  end.
+
+Definition is_leap (y : Z) : bool :=
+  ((y mod 4 =? 0) && (negb (y mod 100 =? 0) || (y mod 400 =? 0)))%Z%bool.
+
+Definition days_in (y m : Z) : Z :=
+  if (m =? 2)%Z then (if is_leap y then 29 else 28)%Z
+  else if ((m =? 4) || (m =? 6) || (m =? 9) || (m =? 11))%Z%bool then 30%Z else 31%Z.
+
+(** Days from 1970-01-01 to y-m-d (proleptic Gregorian calendar). *)
+Definition days_from_civil (y m d : Z) : Z :=
+  let y' := (if m <=? 2 then y - 1 else y)%Z in
+  let era := (y' / 400)%Z in
+  let yoe := (y' - era * 400)%Z in
+  let mp := (if m <=? 2 then m + 9 else m - 3)%Z in
+  let doy := ((153 * mp + 2) / 5 + d - 1)%Z in
+  let doe := (yoe * 365 + yoe / 4 - yoe / 100 + doy)%Z in
+  (era * 146097 + doe - 719468)%Z.
+
+Definition obind' {A B} (o : option A) (f : A -> option B) : option B :=
+  match o with Some a => f a | None => None end.
+
+Definition parse_ts_log (s : string) : option Z :=
+  obind' (digits_n 2 s 0) (fun '(yy, s) =>
+  obind' (digits_n 2 s 0) (fun '(mo, s) =>
+  obind' (digits_n 2 s 0) (fun '(dd, s) =>
+  obind' (expect_char " " s) (fun s =>
+  obind' (digits_n 2 s 0) (fun '(hh, s) =>
+  obind' (expect_char ":" s) (fun s =>
+  obind' (digits_n 2 s 0) (fun '(mi, s) =>
+  obind' (expect_char ":" s) (fun s =>
+  obind' (digits_n 2 s 0) (fun '(ss, s) =>
+  obind' (expect_char "." s) (fun s =>
+  obind' (digits_n 6 s 0) (fun '(us, s) =>
+  match s with
+  | EmptyString =>
+      let y := (if 69 <=? yy then 1900 + yy else 2000 + yy)%Z in
+      if ((1 <=? mo) && (mo <=? 12) && (1 <=? dd) && (dd <=? days_in y mo)
+          && (hh <? 24) && (mi <? 60) && (ss <? 60))%Z%bool
+      then Some ((((days_from_civil y mo dd * 86400 + hh * 3600 + mi * 60 + ss) * 1000000 + us) * 1000)%Z)
+      else None
+  | _ => None
+  end))))))))))).
